@@ -125,7 +125,18 @@ where
         rand::rngs::SmallRng::seed_from_u64(seed)
     };
     let mut draw_events: Vec<u64> = vec![];
-    for _ in 0..k {
+    let retune: Vec<Option<f64>> = match c["retune"].as_array() {
+        Some(a) => a.iter().map(|v| v.as_u64().map(f64::from_bits)).collect(),
+        None => vec![],
+    };
+    for step_i in 0..k {
+        // the step size is a public field: a user may retune it between updates (manual warm-up schedule)
+        if let Some(Some(e)) = retune.get(step_i) {
+            s.step_size = t(*e);
+            if let Some(so) = s_other.as_mut() {
+                so.step_size = t(*e);
+            }
+        }
         {
             use rand::Rng;
             for _ in 0..n_chains * dim {
